@@ -29,6 +29,7 @@ type Prod struct {
 	Endorsement *big.Int   // params[proposer-endorsement] in wei (nil: thor's default, 25M VET)
 	Periods     [3]uint32  // low / medium / high staking period (0: thor's default)
 	Cooldown    uint32
+	Seeder      uint32 // thor.SeederInterval (0: thor's default 8640; the config is process-global, so it is always set)
 	TP          uint32 // HAYABUSA transition period in blocks (0 with Options.PoS: PoS is active from genesis)
 	Funded      int    // dev accounts 0..Funded-1 get BigBalance VET and VTHO (0 = all ten)
 }
@@ -97,6 +98,10 @@ func NewNetProd(o Options, p Prod) *Net {
 	if launch == 0 {
 		launch = DefaultLaunch
 	}
+	seeder := p.Seeder
+	if seeder == 0 {
+		seeder = 8640
+	}
 	params := genesis.Params{ExecutorAddress: &devs[0].Address, MaxBlockProposers: &mbp}
 	if p.Endorsement != nil {
 		params.ProposerEndorsement = (*genesis.HexOrDecimal256)(p.Endorsement)
@@ -109,7 +114,7 @@ func NewNetProd(o Options, p Prod) *Net {
 		Stakers:    stakers,
 		Params:     params,
 		ForkConfig: fc,
-		Config: &thor.Config{EpochLength: o.EpochLength, HayabusaTP: &tp, LowStakingPeriod: p.Periods[0],
+		Config: &thor.Config{EpochLength: o.EpochLength, HayabusaTP: &tp, SeederInterval: seeder, LowStakingPeriod: p.Periods[0],
 			MediumStakingPeriod: p.Periods[1], HighStakingPeriod: p.Periods[2], CooldownPeriod: p.Cooldown},
 	})
 	must(err)
